@@ -217,8 +217,8 @@ def run(ctx):
 
     # in-process: which guard lines of the planner does this workload reach?
     conv = env.conv
-    watch = kit.LineWatch(ctx, [("conversions._plan_conversion", conv._plan_conversion), ("conversions._replace_factors", conv._replace_factors),
-                                ("conversions._reduce_dimension", conv._reduce_dimension), ("conversions._inline_paths", conv._inline_paths),
+    watch = kit.LineWatch(ctx, [("conversions._plan_conversion", getattr(conv, "_plan_conversion", None)), ("conversions._replace_factors", getattr(conv, "_replace_factors", None)),
+                                ("conversions._reduce_dimension", getattr(conv, "_reduce_dimension", None)), ("conversions._inline_paths", getattr(conv, "_inline_paths", None)),
                                 ("conversions.convert", conv.convert), ("Quantity.__eq__", env.m.Quantity.__eq__), ("Quantity.__lt__", env.m.Quantity.__lt__)])
     for name, d in FRESH:
         try:
@@ -240,12 +240,14 @@ def run(ctx):
         ctx.count("in_process_cases")
     watch.close()
     guards = {}
-    for label, fn in (("conversions._plan_conversion", conv._plan_conversion), ("conversions._replace_factors", conv._replace_factors),
-                      ("conversions._reduce_dimension", conv._reduce_dimension), ("conversions._inline_paths", conv._inline_paths)):
+    for label, fn in (("conversions._plan_conversion", getattr(conv, "_plan_conversion", None)), ("conversions._replace_factors", getattr(conv, "_replace_factors", None)),
+                      ("conversions._reduce_dimension", getattr(conv, "_reduce_dimension", None)), ("conversions._inline_paths", getattr(conv, "_inline_paths", None))):
+        if fn is None:
+            continue
         fn = getattr(fn, "__wrapped__", fn)
         try:
             src, first = inspect.getsourcelines(fn)
-        except OSError:
+        except (OSError, TypeError):
             continue
         for i, line in enumerate(src):
             s = line.strip()
